@@ -20,7 +20,7 @@ type Stmt struct {
 	Body []Stmt `json:"body,omitempty"`
 	Else []Stmt `json:"else,omitempty"`
 	Has  bool   `json:"has_else,omitempty"`
-	Arg  string `json:"arg,omitempty"` // use: callee name; raw: text; set: rhs
+	Arg  string `json:"arg,omitempty"`  // use: callee name; raw: text; set: rhs
 	Op   string `json:"op,omitempty"`   // raw: meaning for the harness's model
 	Arg2 string `json:"arg2,omitempty"` // raw: second operand for the model
 }
